@@ -75,7 +75,7 @@ Qed.
 (** * C05: hotspot concurrency, several controllers *)
 Open Scope N_scope.
 
-Definition rule_ok (r : hrule) : Prop := h_kind r = HConc /\ thresholds_pos r = true.
+Definition rule_ok (r : hrule) : Prop := h_kind r = HConc.
 
 (** every controller carries its rule and counts the open entries *)
 Definition minv (rs : list hrule) (cs : list hctl) (open : list (N * hentry)) : Prop :=
@@ -83,28 +83,29 @@ Definition minv (rs : list hrule) (cs : list hctl) (open : list (N * hentry)) : 
 
 (** the check of one controller keeps its invariant (a zero counter may be inserted) *)
 Lemma perform_conc : forall r c open v n now,
-  h_kind r = HConc -> cinv r c open -> 1 <= thr_of r v ->
+  h_kind r = HConc -> cinv r c open ->
   exists c',
     perform c v n now =
       (c', if count_open r v open + 1 <=? thr_of r v then HPass else HBlock (count_open r v open + 1)) /\
     cinv r c' open /\ hc_conc c' v = Some (count_open r v open).
 Proof.
-  intros r c open v n now Hk [Hr Hinv] Hp.
+  intros r c open v n now Hk [Hr Hinv].
   pose proof (Hinv v) as Hv. rewrite Hr in Hv.
   unfold perform. rewrite Hr, Hk. unfold conc_check. rewrite Hr.
   destruct (hc_conc c v) as [k|] eqn:Ec.
   - subst k. exists c. split.
     + destruct (count_open r v open + 1 <=? thr_of r v); reflexivity.
     + split; [split; assumption | exact Ec].
-  - eexists. split.
-    + rewrite Hv. destruct (0 + 1 <=? thr_of r v) eqn:E; [reflexivity | lia].
+  - rewrite Hv, N.add_0_l. cbn [hc_rule].
+    eexists. split.
+    + destruct (1 <=? thr_of r v); reflexivity.
     + split.
       * split; [reflexivity |]. intros v'. cbn [hc_conc hc_rule].
         destruct (v' =? v) eqn:E.
         -- apply N.eqb_eq in E. subst v'. rewrite fset_same. lia.
         -- assert (Hne : v' <> v) by (intros ->; rewrite N.eqb_refl in E; discriminate).
            rewrite fset_other by exact Hne. specialize (Hinv v'). rewrite Hr in Hinv. exact Hinv.
-      * cbn [hc_conc]. rewrite fset_same, Hv. reflexivity.
+      * cbn [hc_conc]. rewrite fset_same. reflexivity.
 Qed.
 
 (** admission bookkeeping of one controller *)
@@ -156,12 +157,11 @@ Proof.
   intros rs cs open id args att n now Hok Hinv. unfold minv in *.
   induction Hinv as [|r c rs cs Hc Hinv IH].
   - exists []. cbn [first_full hslot map]. split; [reflexivity | constructor].
-  - inversion Hok as [|r0 rs0 [Hk Hpos] Hok']. subst r0 rs0.
+  - inversion Hok as [|r0 rs0 Hk Hok']. subst r0 rs0.
     specialize (IH Hok'). destruct IH as (tl' & IH).
     cbn [first_full hslot]. pose proof Hc as [Hr _]. rewrite Hr.
     destruct (extract r args att) as [v|] eqn:Ex.
-    + pose proof (thr_of_pos r v Hpos) as Hp.
-      destruct (perform_conc r c open v n now Hk Hc Hp) as (c' & Hperf & Hc' & Hcv).
+    + destruct (perform_conc r c open v n now Hk Hc) as (c' & Hperf & Hc' & Hcv).
       rewrite Hperf. cbv zeta.
       destruct (count_open r v open + 1 <=? thr_of r v) eqn:Et.
       * destruct (first_full rs args att open) as [[rl sn]|].
@@ -186,7 +186,7 @@ Proof.
   intros rs cs open id e rest Hok Hinv Ef. unfold minv in *.
   induction Hinv as [|r c rs cs Hc Hinv IH].
   - constructor.
-  - inversion Hok as [|r0 rs0 [Hk Hpos] Hok']. subst r0 rs0.
+  - inversion Hok as [|r0 rs0 Hk Hok']. subst r0 rs0.
     cbn [map]. constructor; [| apply IH; exact Hok'].
     apply adjust_down with (id := id) (open := open); assumption.
 Qed.
@@ -212,7 +212,7 @@ Proof.
 Qed.
 
 Theorem c05h_multi_holds : forall rs base ops,
-  Forall (fun r => h_kind r = HConc /\ thresholds_pos r = true) rs ->
+  Forall (fun r => h_kind r = HConc) rs ->
   ok_c05h_multi rs [] ops (hrun (mkHW base (map hctl0 rs) []) ops) = true.
 Proof.
   intros rs base ops Hok. apply c05h_multi_gen; [exact Hok |].
